@@ -315,7 +315,7 @@ impl World {
 			};
 			self.do_mine(jump);
 			for n in 0..n_nodes {
-				self.do_sync(n, 0);
+				self.do_sync(n, 255);
 			}
 			if self.chain.tip_height() - start_height > 3000 {
 				break;
